@@ -71,5 +71,30 @@ pub fn run(ctx: &mut Ctx) {
         }
         ctx.count_n("mode-c-parses", (nthreads * inputs.len()) as u64);
         ctx.count(&format!("threads:{nthreads}"));
+        // (d) contention on the converter: few inputs, each dense in look-ups of DIFFERENT short units, many
+        // threads hammering one parser (a shared memo/cache inside the converter would tear here)
+        if conv == 1 {
+            let dense: Vec<String> = vec![
+                "Boil ~{5%min} then ~{2%h} then ~{30%s} and ~{1%d}.".into(),
+                "Add @a{1%kg} @b{2%g} @c{3%ml} @d{4%l} @e{5%tsp} @f{6%cup} @g{7%oz} @h{8%lb}.".into(),
+                ">> time: 1h 30min\n>> prep time: 20 min\n\nWait ~{10%minutes} at 180 °C or 350 °F, use 2 cups and 3 tbsp.".into(),
+                "@x{1%kg} then @&x{500%g} and @&x{1%lb} and @y{1%l} then @&y{2%cup}".into(),
+                "~{1%s} ~{1%min} ~{1%h} ~{1%d} ~{1%kg} ~{1%c} ~{1%g} ~{1%ml}".into(),
+            ];
+            let fresh_d: Vec<String> = dense.iter().map(|s| image(&mk(), s)).collect();
+            let shared = Arc::new(mk());
+            let dense_a = Arc::new(dense.clone());
+            let nt = 8usize;
+            let reps = if ctx.thorough { 20_000 } else { 3_000 };
+            let barrier = Arc::new(Barrier::new(nt));
+            let mut hs = Vec::new();
+            for t in 0..nt {
+                let (p, ins, b) = (shared.clone(), dense_a.clone(), barrier.clone());
+                hs.push(std::thread::spawn(move || { b.wait(); let mut bad = Vec::new(); for r in 0..reps { let i = (r + t) % ins.len(); let img = image(&p, &ins[i]); bad.push((i, img)); } bad }));
+            }
+            for h in hs { for (i, img) in h.join().unwrap_or_default() { ctx.eval("", false); if img != fresh_d[i] {
+                ctx.oracle_fail(format!("{nt} threads, unit-dense inputs, shared parser: ext={ext_bits} input={:?}", dense[i]), format!("result differs from a fresh parser\nfresh: {}\nthread: {img}", fresh_d[i]), "c18:threads".into()); } } }
+            ctx.count_n("mode-d-parses", (nt * reps) as u64);
+        }
     }
 }
